@@ -336,6 +336,13 @@ def others(ctx, binary, n_cases, fails):
             v = complex(loop_hafnian_with_reduction(A.copy(), diag.copy(), np.array(occ)))
             if abs(v - lh) > 1e-9 * max(1.0, abs(lh)):
                 fails.append(("loop-hafnian", f"loop_hafnian_with_reduction(occ {occ}) = {v}, definition {lh}", {"occ": occ, "matrix": repr(A.tolist()), "diag": repr(diag.tolist())}))
+            # the JAX version of the loop hafnian (its own algorithm: padding for odd sizes, Glynn-type iteration)
+            if it % 3 == 0 and 1 <= sum(occ) <= 6:
+                from piquasso._math.jax.hafnian import loop_hafnian_with_reduction as jax_lhaf
+                import jax.numpy as jnp
+                vj = complex(np.asarray(jax_lhaf(jnp.asarray(A), jnp.asarray(diag), np.array(occ))))
+                if abs(vj - lh) > 5e-5 * max(1.0, abs(lh)):      # single precision unless x64 is enabled
+                    fails.append(("loop-hafnian-jax", f"JAX loop_hafnian_with_reduction(occ {occ}) = {vj}, definition {lh}", {"occ": occ, "matrix": repr(A.tolist()), "diag": repr(diag.tolist())}))
             if n >= 1 and sum(occ[:-1]) <= 5:
                 cutoff = int(rng.integers(2, 6))
                 o0 = list(occ); o0[-1] = 0
